@@ -35,14 +35,15 @@ pub fn aspect(c: &Case, ins: &[Option<T>]) -> String {
     let inp = |k: usize| ins.get(k).and_then(|t| t.as_ref());
     match op {
         "Conv" | "ConvInteger" | "ConvTranspose" | "MaxPool" | "AveragePool" => {
+            // (first, so that it stays attributed when another gap of the same node is repaired)
+            if attr_s(c, "auto_pad") == Some("SAME_LOWER") {
+                return "auto_pad=SAME_LOWER".into();
+            }
             if matches!(op, "Conv" | "ConvInteger" | "ConvTranspose") && attr(c, "kernel_shape").is_none() {
                 return "no-kernel_shape".into();
             }
             if matches!(op, "MaxPool" | "AveragePool") && attr(c, "strides").is_none() {
                 return "no-strides".into();
-            }
-            if attr_s(c, "auto_pad") == Some("SAME_LOWER") {
-                return "auto_pad=SAME_LOWER".into();
             }
             if op == "ConvInteger" {
                 return conv_integer_aspect(c, ins);
@@ -100,6 +101,33 @@ pub fn aspect(c: &Case, ins: &[Option<T>]) -> String {
             }
             String::new()
         }
+        "Softmax" | "LogSoftmax" if c.model.opset < 13 => match inp(0) {
+            // before opset 13 the input is coerced to 2-D at `axis` (default 1)
+            Some(x) => {
+                let a = norm_axis(attr_i(c, "axis").unwrap_or(1), x.rank()).unwrap_or(0);
+                if a + 1 != x.rank() {
+                    "opset<13-2d-coercion".into()
+                } else {
+                    String::new()
+                }
+            }
+            None => String::new(),
+        },
+        "Einsum" => match attr_s(c, "equation") {
+            Some(eq) => {
+                let lhs = eq.split("->").next().unwrap_or("");
+                let repeated = lhs.split(',').any(|t| {
+                    let t: Vec<char> = t.chars().filter(|ch| *ch != ' ').collect();
+                    (0..t.len()).any(|i| t[i + 1..].contains(&t[i]))
+                });
+                if repeated {
+                    "repeated-index-in-operand".into()
+                } else {
+                    String::new()
+                }
+            }
+            None => String::new(),
+        },
         "ReduceMean" => match inp(1) {
             // ReduceMeanAxesFusion folds a constant `axes` input into the operator
             Some(axes) if axes.n() == 0 && is_init(c, 1) && attr_i(c, "noop_with_empty_axes").unwrap_or(0) != 0 => "constant-empty-axes+noop_with_empty_axes".into(),
